@@ -238,7 +238,44 @@ def r2_value_equality(ctx, closure: List[ClassInfo]) -> None:
             ctx.violation("R2", eqm.node, f"{eqm.qualname} compares the whole __dict__ including the `_searcher` back-reference: comparing two searchers "
                           "recurses without end", construct=f"{eqm.qualname} back-reference")
             continue
-        ctx.ok("R2", f"{cls.name}: value equality through {eqm.qualname}")
+        bad = False
+        if eqm.cls is not None:
+            # the type test of __eq__ must let an object of the same class through
+            own = {c.name for c in P.mro(eqm.cls)} | {eqm.cls.name}
+            op = [p_ for p_ in D.param_names(eqm.node) if p_ != "self"]
+            other = op[0] if op else "other"
+            for x in walk_local(eqm.node):
+                if isinstance(x, ast.Call) and norm(x.func) == "isinstance" and len(x.args) == 2 and norm(x.args[0]) == other:
+                    names = [norm(e) for e in (x.args[1].elts if isinstance(x.args[1], ast.Tuple) else [x.args[1]])]
+                    if not any(nm.split(".")[-1] in own or nm in ("type(self)", "self.__class__") for nm in names):
+                        bad = True
+                        ctx.violation("R2", x, f"{eqm.qualname} tests `{norm(x)}`: an object of class {eqm.cls.name} is not one of {names}, so two equal {eqm.cls.name} "
+                                      "objects never compare equal (NotImplemented falls back to identity) and a restored searcher differs from the original")
+            # unordered state compared through its iteration order
+            unordered = set()
+            for a, sts in P.attr_assignments(eqm.cls).items():
+                for st in sts:
+                    v = getattr(st, "value", None)
+                    ann = getattr(st, "annotation", None)
+                    if (v is not None and (isinstance(v, (ast.Set, ast.SetComp)) or (isinstance(v, ast.Call) and norm(v.func) in ("set", "frozenset")))) or \
+                            (ann is not None and norm(ann).startswith(("Set[", "set[", "FrozenSet["))):
+                        unordered.add(a)
+            iters_unordered = False
+            it = P.find_method(eqm.cls, "__iter__")
+            if it is not None and any(is_self_attr(x) and x.attr in unordered for x in ast.walk(it.node)):
+                iters_unordered = True
+            for x in walk_local(eqm.node):
+                if isinstance(x, ast.Compare) and len(x.ops) == 1 and isinstance(x.ops[0], (ast.Eq, ast.NotEq)):
+                    for side in (x.left, x.comparators[0]):
+                        if isinstance(side, ast.Call) and norm(side.func) in ("list", "tuple") and len(side.args) == 1:
+                            a0 = side.args[0]
+                            if (is_self_attr(a0) and a0.attr in unordered) or (isinstance(a0, ast.Name) and a0.id == "self" and iters_unordered):
+                                bad = True
+                                ctx.violation("R2", x, f"{eqm.qualname} compares `{norm(side)}`, the iteration order of a set: two objects holding the same elements compare "
+                                              "unequal whenever their sets were built in another order (a restored searcher vs the original)")
+                                break
+        if not bad:
+            ctx.ok("R2", f"{cls.name}: value equality through {eqm.qualname}")
     se = P.need_method(SEARCHER, "__eq__", own=True)
     if "self.__dict__ == other.__dict__" in norm(se.node):
         ctx.ok("R2", "the searcher compares its whole state (__dict__)")
@@ -419,6 +456,37 @@ def r3_interruption_points(ctx) -> None:
             ctx.ok("R3", "a packet is skipped only for a verified class (and only when expand_verified is off)")
         else:
             ctx.violation("R3", exp.test, f"packets are expanded under `{t}`; only verified classes may be skipped")
+
+
+MUTABLE_CTORS = {"deque", "list", "set", "dict", "defaultdict", "Counter", "OrderedDict", "DefaultList"}
+
+
+def r5b_no_class_level_state(ctx, closure: List[ClassInfo]) -> None:
+    """State that changes while the searcher runs lives on the instance: a mutable container
+    bound in a class body is shared by all instances and is not part of what pickle saves for
+    (or `__dict__` compares of) one of them."""
+    P = ctx.P
+    n = 0
+    for cls in closure:
+        for name, v in cls.class_attrs.items():
+            mutable = isinstance(v, (ast.List, ast.Dict, ast.Set, ast.ListComp, ast.DictComp, ast.SetComp)) or \
+                (isinstance(v, ast.Call) and norm(v.func).split(".")[-1] in MUTABLE_CTORS)
+            if not mutable:
+                continue
+            n += 1
+            written = False
+            for c2 in P.subclasses(cls):
+                for m in c2.methods.values():
+                    for x in walk_local(m.node):
+                        if isinstance(x, ast.Attribute) and x.attr == name and isinstance(x.value, ast.Name) and x.value.id in ("self", "cls", cls.name):
+                            p_ = parent(x)
+                            if (isinstance(p_, ast.Attribute) and p_.attr in ("append", "appendleft", "extend", "add", "update", "pop", "popleft", "clear", "remove", "discard", "setdefault", "insert"))\
+                                    or (isinstance(p_, ast.Subscript) and isinstance(p_.ctx, (ast.Store, ast.Del))):
+                                written = True
+            if written:
+                ctx.violation("R5", v, f"{cls.name}.{name} is a mutable container bound in the class body and changed at run time: it is shared between all {cls.name} "
+                              "objects, is not pickled with one of them and is not in the __dict__ their equality compares", construct=f"{cls.name}.{name}")
+    ctx.ok("R5", f"no class of the state closure keeps run-time state in a class-level container ({n} class-level containers looked at)")
 
 
 def r5_no_global_state(ctx) -> None:
